@@ -15,9 +15,9 @@ NP = {"np": glob("numpy"), "pd": glob("pandas")}
 
 
 def check(ctx):
-    r181_182(ctx)
-    r183(ctx)
-    r184(ctx)
+    ctx.guard(r181_182, ctx)
+    ctx.guard(r183, ctx)
+    ctx.guard(r184, ctx)
 
 
 def r181_182(ctx):
